@@ -21,9 +21,9 @@ Eof == Is("eof") /\ Verdict /\ UNCHANGED <<tid, status, S>>
 G == S.grid
 P(s, i) == [x |-> s.x[i], y |-> s.y[i], z |-> s.z[i], alive |-> s.alive[i], active |-> s.active[i]]
 \* displacement of particle i in 1/256 cell: advection + random walk  sigma xi dt / dx  with sigma dt = sqrt(2 D dt)
-DispX(e, i, xi) == (e.un[i] * 2 * S.dt) \div S.dx + (S.s16 * xi * 4) \div S.dx
-DispY(e, i, xi) == (e.vn[i] * 2 * S.dt) \div S.dy + (S.s16 * xi * 4) \div S.dy
-DispZ(e, i, xi) == (IF S.vadv THEN e.wn[i] ELSE 0) + (S.sz16 * xi) \div 4
+DispX(e, i, xi) == (e.un[i] * 2 * S.dt) \div S.dx + WalkH(S.s16, xi, S.dx)
+DispY(e, i, xi) == (e.vn[i] * 2 * S.dt) \div S.dy + WalkH(S.s16, xi, S.dy)
+DispZ(e, i, xi) == (IF S.vadv THEN e.wn[i] ELSE 0) + WalkV(S.sz16, xi)
 ExactDiv(e, n) == /\ \A i \in 1..n : (e.un[i] * 2 * S.dt) % S.dx = 0 /\ (e.vn[i] * 2 * S.dt) % S.dy = 0
                   /\ \A k \in 1..Len(e.draws) : (S.s16 * e.draws[k] * 4) % S.dx = 0 /\ (S.s16 * e.draws[k] * 4) % S.dy = 0
                                                 /\ (S.sz16 * e.draws[k]) % 4 = 0
@@ -36,9 +36,9 @@ TStep ==
           shape == Len(e.post.x) = n /\ Len(e.post.z) = n /\ Len(e.un) = n /\ (S.vadv => Len(e.wn) = n)
           enough == Len(e.draws) >= nh + nv
           \* xi of particle i for U and V under the two accepted assignments of the i.i.d. blocks
-          xu(a, i) == IF S.s16 = 0 THEN 0 ELSE IF a = 1 THEN e.draws[i] ELSE e.draws[n + i]
-          xv(a, i) == IF S.s16 = 0 THEN 0 ELSE IF a = 1 THEN e.draws[n + i] ELSE e.draws[i]
-          xw(i) == IF S.sz16 = 0 THEN 0 ELSE e.draws[nh + i]
+          xu(a, i) == IF S.s16 = 0 THEN 0 ELSE DrawU(e.draws, n, a, i)
+          xv(a, i) == IF S.s16 = 0 THEN 0 ELSE DrawV(e.draws, n, a, i)
+          xw(i) == IF S.sz16 = 0 THEN 0 ELSE DrawW(e.draws, nh, i)
           want(a, i) == MoveH(G, P(e.pre, i), DispX(e, i, xu(a, i)), DispY(e, i, xv(a, i)))
           \* a particle that is already dead is not observable any more: it only has to stay dead (where it is kept is free)
           hfit(a) == \A i \in 1..n : IF ~e.pre.alive[i] THEN ~e.post.alive[i] ELSE LET w == want(a, i) IN
